@@ -480,6 +480,11 @@ func (sc *serverConn) handleStreams() {
 	var reqTimerArmed bool
 	var openStreams int
 
+	// highestID is the highest stream id the peer has used to open a stream,
+	// whether the stream was accepted or refused. sc.lastID only counts the
+	// ones that were accepted, because that is what GOAWAY reports.
+	var highestID uint32
+
 	// curInitialWindow tracks the client's SETTINGS_INITIAL_WINDOW_SIZE, which
 	// is the send window every new stream starts with. It starts at the spec
 	// default of 65535; the client's SETTINGS frames are forwarded to this
@@ -820,6 +825,19 @@ loop:
 					}
 
 					continue
+				}
+
+				// A new stream has to have a higher id than every stream the peer
+				// has opened before (RFC 7540 5.1.1). The closed streams that are
+				// still remembered were dealt with above; this catches an id that
+				// has been forgotten, which would otherwise start a second life.
+				if fr.Type() == FrameHeaders {
+					if fr.Stream() <= highestID {
+						sc.writeGoAway(fr.Stream(), ProtocolError, "stream ID is not higher than the latest")
+						continue
+					}
+
+					highestID = fr.Stream()
 				}
 
 				// if the client has more open streams than the maximum allowed OR
